@@ -1,0 +1,41 @@
+//go:build verif
+
+package forkable
+
+// Schedule points of the verification harness around the Forkable's read/write lock (build tag
+// `verif` only).  Forkable embeds sync.RWMutex; the four methods below shadow the promoted ones, so
+// that every `p.Lock()`, `p.Unlock()`, `p.RLock()`, `p.RUnlock()` of forkable.go (ProcessBlock, the
+// CallWithBlocksXxx functions, the lookups) passes through a schedule point before and after the
+// lock operation.  Without the tag this file is not compiled and forkable.go calls sync.RWMutex
+// directly: forkable.go itself is unchanged.  TryLock / TryRLock are not shadowed (the harness uses
+// TryRLock to observe whether a writer holds or has announced itself).
+
+// VerifPoint is called, on the calling goroutine, at every schedule point of this package.
+var VerifPoint = func(name string) {}
+
+func verifPoint(name string) { VerifPoint(name) }
+
+// Lock announces the writer and waits for the active readers (sync.RWMutex.Lock).
+func (p *Forkable) Lock() {
+	verifPoint("forkable:lock")
+	p.RWMutex.Lock()
+	verifPoint("forkable:locked")
+}
+
+func (p *Forkable) Unlock() {
+	verifPoint("forkable:unlock")
+	p.RWMutex.Unlock()
+	verifPoint("forkable:unlocked")
+}
+
+func (p *Forkable) RLock() {
+	verifPoint("forkable:rlock")
+	p.RWMutex.RLock()
+	verifPoint("forkable:rlocked")
+}
+
+func (p *Forkable) RUnlock() {
+	verifPoint("forkable:runlock")
+	p.RWMutex.RUnlock()
+	verifPoint("forkable:runlocked")
+}
